@@ -1,8 +1,11 @@
 (* Extraction of the executable model and of the specification oracles for volume runs.
    ExtrOcamlBasic only: bool, option, list, prod, unit, sumbool map to the OCaml types;
-   N/Z/positive/nat/ascii stay the extracted inductives.  No Extract Constant of ours. *)
-Require Import AvraV.Model.Hex AvraV.Spec.HexReader.
+   N/Z/positive/nat/ascii/string stay the extracted inductives.  No Extract Constant of ours. *)
+Require Import AvraV.Model.Base AvraV.Model.Ast AvraV.Model.Device AvraV.Model.Eval AvraV.Model.Encode.
+Require Import AvraV.Model.Hex AvraV.Spec.HexReader AvraV.Spec.Isa AvraV.Gen.OpTable AvraV.Gen.Devices.
 Require Extraction.
 Require Import ExtrOcamlBasic.
 Extraction Language OCaml.
-Extraction "avmodel.ml" Hex.write HexReader.holds_C07 HexReader.read_file.
+Extraction "avmodel.ml" Hex.write HexReader.holds_C07 HexReader.read_file
+  Ast.lit Eval.ctx_new Eval.run Encode.process Encode.operation_of_name Isa.expect Isa.decode
+  Devices.default_device Devices.devices.
